@@ -12,8 +12,13 @@
 (*             by the harness's independent walker must agree with TLC's   *)
 (*             own reading of the bytes (cross-check of the walker, which  *)
 (*             C18 relies on; a disagreement is a harness fault).          *)
+(*             Whole fonts must also contain the required tables           *)
+(*             (ContainerOps!RequiredTables).                              *)
 (*   readback  header.Read + ReadTableBytes of every entry: must succeed   *)
 (*             and return exactly TablesOf(file)                           *)
+(*   readalt   table-count sweeps only: header.Read on an independently    *)
+(*             assembled container with the same tables; Write accepted    *)
+(*             the map <=> Read accepts it                                 *)
 (*   obs       src "lib": what the written font value says; src "ximage":  *)
 (*             what golang.org/x/image/font/sfnt reads from the file: must *)
 (*             agree on glyph count, units per em, character mapping,      *)
@@ -35,8 +40,10 @@ VARIABLES l,      \* next line
           scaler, inp,
           file,   \* bytes produced by the writer (<<>> after a failed "written")
           good,   \* the written event of the case passed
-          lib     \* the "lib" observation of the case
-vars == <<l, kind, scaler, inp, file, good, lib>>
+          lib,    \* the "lib" observation of the case
+          meta,   \* [law, okind, hascmap] of the case
+          wst     \* "ok" | "refused" (Write returned an error and produced nothing) | "bad"
+vars == <<l, kind, scaler, inp, file, good, lib, meta, wst>>
 
 E == Trace[l]
 Is(ev) == l <= Len(Trace) /\ E.ev = ev
@@ -45,12 +52,15 @@ Fail(clause) == /\ PrintT(<<"FAILED", l, E.id, clause>>)
                 /\ TLCSet(2, TLCGet(2) + 1)
                 /\ IF TLCGet(3) = 0 THEN TLCSet(3, l) ELSE TRUE
 
+NoMeta == [law |-> FALSE, okind |-> "", hascmap |-> FALSE]
 Init == /\ l = 1 /\ kind = "" /\ scaler = <<0, 0>> /\ inp = <<>> /\ file = <<>> /\ good = FALSE /\ lib = <<>>
+        /\ meta = NoMeta /\ wst = ""
         /\ TLCSet(1, 0) /\ TLCSet(2, 0) /\ TLCSet(3, 0)
 
 Case == /\ Is("case")
         /\ kind' = E.kind /\ scaler' = E.scaler /\ inp' = E.tabs
         /\ file' = <<>> /\ good' = FALSE /\ lib' = <<>>
+        /\ meta' = [law |-> E.law, okind |-> E.okind, hascmap |-> E.hascmap] /\ wst' = ""
         /\ Consume
 
 \* does the walker of the harness read the same directory as TLC?
@@ -65,25 +75,34 @@ WalkerAgrees(f) ==
             /\ (Small(r.off) /\ Small(r.len) /\ Int32(r.off) + Int32(r.len) <= Len(f))
                  => w.inside /\ w.calc = Checksum(TableBytes(f, r))
 
+\* table-count sweep with no table at all: a writer that accepts it has nothing to lay out but the
+\* 12-byte offset table (whether that is acceptable is decided by the law at "readalt")
+EmptyCase == kind = "map" /\ meta.law /\ Present(inp) = {}
+\* in a table-count sweep Write may refuse the map: an error and not a single byte written
+Refused == meta.law /\ ~E.panic /\ ~E.ok /\ Len(E.file) = 0
+
 \* first failing clause of the "written" event ("" = passes)
 Verdict(f) ==
   IF E.panic THEN "panic" ELSE
   IF ~E.ok THEN "error" ELSE
   IF E.n # Len(f) THEN "count-returned" ELSE
+  IF EmptyCase THEN (IF Len(f) = 12 /\ NumTables(f) = 0 /\ Scaler(f) = scaler THEN "" ELSE "header") ELSE
   IF ~HeaderOK(f) THEN "header" ELSE
   IF kind = "map" /\ Scaler(f) # scaler THEN "scaler" ELSE
   IF kind = "map" /\ NumTables(f) # Cardinality(Present(inp)) THEN "numtables" ELSE
   IF WhyNot(f) # "" THEN WhyNot(f) ELSE
-  IF kind = "map" /\ Masked(TablesOf(f)) # Expected(inp) THEN "content" ELSE ""
+  IF kind = "map" /\ Masked(TablesOf(f)) # Expected(inp) THEN "content" ELSE
+  IF kind = "font" /\ ~(RequiredTables(meta.okind, meta.hascmap) \subseteq TagsIn(f)) THEN "font-required-table" ELSE ""
 
 Written ==
   /\ Is("written")
   /\ LET f == E.file
          v == Verdict(f)
      IN  /\ IF WalkerAgrees(f) THEN TRUE ELSE Fail("WALKER")
-         /\ IF v = "" THEN file' = f /\ good' = TRUE
-                      ELSE Fail(v) /\ file' = <<>> /\ good' = FALSE
-  /\ UNCHANGED <<kind, scaler, inp, lib>> /\ Consume
+         /\ IF Refused THEN file' = <<>> /\ good' = FALSE /\ wst' = "refused"
+            ELSE IF v = "" THEN file' = f /\ good' = TRUE /\ wst' = "ok"
+                           ELSE Fail(v) /\ file' = <<>> /\ good' = FALSE /\ wst' = "bad"
+  /\ UNCHANGED <<kind, scaler, inp, lib, meta>> /\ Consume
 
 ReadVerdict ==
   IF E.panic THEN "read-panic" ELSE
@@ -96,15 +115,27 @@ ReadVerdict ==
 Readback ==
   /\ Is("readback")
   /\ IF good /\ ReadVerdict # "" THEN Fail(ReadVerdict) ELSE TRUE
-  /\ UNCHANGED <<kind, scaler, inp, file, good, lib>> /\ Consume
+  /\ UNCHANGED <<kind, scaler, inp, file, good, lib, meta, wst>> /\ Consume
+
+\* The law of the table-count sweep (Container!InvAgree): header.Read is given a well-formed container
+\* with the same tables, built by the harness's independent assembler.  Write accepted <=> Read accepts.
+ReadAlt ==
+  /\ Is("readalt")
+  /\ IF E.panic THEN Fail("read-panic")
+     ELSE IF wst = "refused" /\ E.ok THEN Fail("write-refuses-what-read-accepts")
+     ELSE IF wst = "ok" /\ ~E.ok THEN Fail("read-refuses-what-write-accepts")
+     ELSE IF E.ok /\ E.ntabs # Cardinality(Present(inp)) THEN Fail("read-count")
+     ELSE TRUE
+  /\ UNCHANGED <<kind, scaler, inp, file, good, lib, meta, wst>> /\ Consume
 
 ObsLib == /\ Is("obs") /\ E.src = "lib"
           /\ IF E.ok THEN TRUE ELSE Fail("LIBOBS")
           /\ lib' = E
-          /\ UNCHANGED <<kind, scaler, inp, file, good>> /\ Consume
+          /\ UNCHANGED <<kind, scaler, inp, file, good, meta, wst>> /\ Consume
 
-\* x/image refuses some files for reasons of its own (no cmap, ...): such a case proves nothing
-\* and is reported as SKIPPED, not as a failure
+\* x/image refuses a font without a character map (the unchanged tree writes none for CMapTable = nil):
+\* such a case proves nothing and is reported as SKIPPED.  Any other file that Write produced without
+\* an error and x/image rejects is a failure.
 \* outlines of glyph i (see harness/cmd/c03: CFF path operators in order; TrueType: the off-curve
 \* points are the same multiset, the on-curve points of the font are end points in x/image)
 PointSet(s) == {s[j] : j \in 1..Len(s)}
@@ -126,11 +157,12 @@ ObsVerdict ==
 
 ObsX == /\ Is("obs") /\ E.src = "ximage"
         /\ IF ~good \/ ~lib.ok THEN TRUE
-           ELSE IF ~E.ok THEN PrintT(<<"SKIPPED", l, E.id, E.msg>>)
+           ELSE IF ~E.ok /\ ~meta.hascmap THEN PrintT(<<"SKIPPED", l, E.id, E.msg>>)
+           ELSE IF ~E.ok THEN Fail("x-rejected")
            ELSE IF ObsVerdict # "" THEN Fail(ObsVerdict) ELSE TRUE
-        /\ UNCHANGED <<kind, scaler, inp, file, good, lib>> /\ Consume
+        /\ UNCHANGED <<kind, scaler, inp, file, good, lib, meta, wst>> /\ Consume
 
-Next == Case \/ Written \/ Readback \/ ObsLib \/ ObsX
+Next == Case \/ Written \/ Readback \/ ReadAlt \/ ObsLib \/ ObsX
 Spec == Init /\ [][Next]_vars
 
 Accepted == IF TLCGet(1) = Len(Trace) /\ TLCGet(2) = 0 THEN TRUE
